@@ -1,7 +1,7 @@
 (* Extraction of the executable model to OCaml.  ExtrOcamlBasic only: bool, option, list,
    prod, unit, sumbool map to OCaml's; N / positive / nat / Z stay inductive. *)
 From Coq Require Import Extraction ExtrOcamlBasic ZArith.
-From QwtModel Require Import Outcome ListX Seq QVec RSQ QWT.
+From QwtModel Require Import Outcome ListX Seq QVec RSQ QWT Words.
 Extraction Language OCaml.
 Extraction "model.ml"
   N.add N.mul N.sub N.div N.modulo N.eqb N.ltb N.leb N.of_nat N.to_nat N.div_eucl N.pow
@@ -11,4 +11,6 @@ Extraction "model.ml"
   rsq_new rsq_from_qv rsq_default rsq_len rsq_is_empty rsq_get rsq_get_unchecked rsq_rank rsq_rank_unchecked
   rsq_select rsq_select_unchecked rsq_occs rsq_occs_unchecked rsq_occs_smaller_q rsq_occs_smaller_unchecked
   qwt_new qwt_default qwt_len qwt_is_empty qwt_sigma qwt_rank qwt_rank_unchecked qwt_get qwt_get_unchecked
-  qwt_select qwt_select_unchecked qwt_rank_prefetch qwt_rank_prefetch_unchecked.
+  qwt_select qwt_select_unchecked qwt_rank_prefetch qwt_rank_prefetch_unchecked
+  select_in_word select_in_word_u128 popcnt_wide msb_w stable_partition_of_4
+  qline_set_symbol qline_get_unchecked qline_rank_unchecked pack_qline.
